@@ -242,6 +242,28 @@ theorem custom_is_gaussian_product (S : Custom ℝ n) (v : Fin n → NNReal) (hv
   simp only [covUsed, hS]
   rw [mvnPdf_diagonal _ _ v hv]
 
+/-- **the order in which a sample is listed does not matter**: the same supernovae in another order (magnitudes,
+    redshifts, covariance rows and columns and the model moduli permuted consistently) give the same
+    log-likelihood — with an explicit or a free normalisation, with or without intrinsic scatter. -/
+theorem custom_order_invariant (S : Custom ℝ n) (lum : Vec ℝ n) (m σ : Option ℝ) (e : Equiv.Perm (Fin n)) :
+    customLogL invR logdetR (S.relabel e) (fun i => lum (e i)) m σ = customLogL invR logdetR S lum m σ := by
+  simp only [customLogL, Custom.relabel, covUsed_relabel]
+  have hd : (diag fun i j => covUsed S.cov S.noScatter σ (e i) (e j)) = fun i => diag (covUsed S.cov S.noScatter σ) (e i) := rfl
+  have hn : normUsed (fun i => S.mag (e i)) (fun i => lum (e i)) (fun i => diag (covUsed S.cov S.noScatter σ) (e i)) m
+      = normUsed S.mag lum (diag (covUsed S.cov S.noScatter σ)) m := by
+    cases m with
+    | some v => rfl
+    | none => exact estNorm_relabel _ _ _ e
+  rw [hd, hn]
+  have hr : resid (fun i => S.mag (e i)) (fun i => lum (e i)) (normUsed S.mag lum (diag (covUsed S.cov S.noScatter σ)) m)
+      = fun i => resid S.mag lum (normUsed S.mag lum (diag (covUsed S.cov S.noScatter σ)) m) (e i) := rfl
+  rw [hr, quadForm_invR_relabel, logdetR_relabel]
+
+/-- non-vacuity: a cyclic re-listing of three supernovae (a permutation that is not its own inverse) -/
+example (S : Custom ℝ 3) (lum : Vec ℝ 3) (m σ : Option ℝ) :
+    customLogL invR logdetR (S.relabel (finRotate 3)) (fun i => lum (finRotate 3 i)) m σ = customLogL invR logdetR S lum m σ :=
+  custom_order_invariant S lum m σ (finRotate 3)
+
 /-! ## 4. lens side -/
 
 /-- **lens_side_same_convention**: for a magnitude-carrying lens type and distances above the floor
